@@ -183,6 +183,25 @@ func phiFact(f Fact) (*ssa.Phi, func(e ssa.Value) bool) {
 	return nil, nil
 }
 
+// deadEdges: the incoming edges of block b that the facts rule out. A fact about ANY phi of b
+// that contradicts that phi's value on an edge rules the edge out for all phis of b (they are
+// selected together).
+func deadEdges(b *ssa.BasicBlock, facts []Fact) map[int]bool {
+	dead := map[int]bool{}
+	for _, f := range facts {
+		p, contradicts := phiFact(f)
+		if p == nil || p.Block() != b {
+			continue
+		}
+		for i, e := range p.Edges {
+			if contradicts(e) {
+				dead[i] = true
+			}
+		}
+	}
+	return dead
+}
+
 // refine resolves a phi to the single incoming value the facts leave possible (v itself otherwise).
 func refine(v ssa.Value, facts []Fact) ssa.Value {
 	for depth := 0; depth < 4; depth++ {
@@ -190,18 +209,10 @@ func refine(v ssa.Value, facts []Fact) ssa.Value {
 		if !ok {
 			return v
 		}
+		dead := deadEdges(phi.Block(), facts)
 		alive := make([]bool, len(phi.Edges))
 		for i := range alive {
-			alive[i] = true
-		}
-		for _, f := range facts {
-			if p, contradicts := phiFact(f); p == phi {
-				for i, e := range phi.Edges {
-					if contradicts(e) {
-						alive[i] = false
-					}
-				}
-			}
+			alive[i] = !dead[i]
 		}
 		var only ssa.Value
 		n := 0
@@ -336,15 +347,9 @@ func alternatives(v ssa.Value, facts []Fact) []ssa.Value {
 			out = append(out, v)
 			return
 		}
+		dead := deadEdges(phi.Block(), facts)
 		for i, e := range phi.Edges {
-			dead := false
-			for _, f := range facts {
-				if p, contradicts := phiFact(f); p == phi && contradicts(e) {
-					dead = true
-				}
-			}
-			_ = i
-			if !dead {
+			if !dead[i] {
 				add(e, depth+1)
 			}
 		}
